@@ -397,6 +397,11 @@ def bounded(tier, seed):
         f.createVariable('count', 'i2', ('site', 'k'), values=(np.arange(n * 2).reshape(n, 2) + 1000 * off).astype('i2'))
         f.createVariable('big', 'i8', ('site',), values=(np.arange(n) + 2 ** 40 + off).astype('i8'))
         f.createVariable('flag', '?', ('site',), values=(np.arange(n) + off) % 2 == 0)
+        # masked variables whose fill value is ZERO (given as fill_value, or as missing_value only)
+        mz = np.ma.masked_array(np.arange(n, dtype='f') + 1 + off, mask=[(i + off // 10) % 2 == 0 for i in range(n)])
+        f.createVariable('mfill0', 'f', ('site',), values=mz, fill_value=0.)
+        v_ = f.createVariable('mmiss0', 'f', ('site',), values=mz.copy())
+        v_.missing_value = 0.
         return f
     for lens in ((2, 3), (1, 1, 4), (3,)):
         def t_typed(lens=lens):
@@ -410,6 +415,13 @@ def bounded(tier, seed):
                     return 'variable %s: element type %s, the pieces have %s' % (vk, got.dtype, exp.dtype)
                 if got.shape != exp.shape or not np.array_equal(got, exp):
                     return 'variable %s: values differ from the concatenation of the pieces (%r ... expected %r ...)' % (vk, got.ravel()[:3].tolist(), exp.ravel()[:3].tolist())
+            for vk in ('mfill0', 'mmiss0'):
+                exp = np.ma.concatenate([x.variables[vk][...] for x in fs], axis=0)
+                got = np.ma.asarray(g.variables[vk][...])
+                if not np.array_equal(np.ma.getmaskarray(got), np.ma.getmaskarray(exp)):
+                    return 'variable %s (fill value 0): mask of the stacked variable %r, the pieces have %r' % (vk, np.ma.getmaskarray(got).astype(int).tolist(), np.ma.getmaskarray(exp).astype(int).tolist())
+                if not np.array_equal(np.ma.getdata(got)[~np.ma.getmaskarray(exp)], np.ma.getdata(exp)[~np.ma.getmaskarray(exp)]):
+                    return 'variable %s (fill value 0): unmasked values differ' % vk
             k0, k1 = np.asarray(fs[0].variables['kind'][...]), np.asarray(g.variables['kind'][...])
             if k1.dtype != k0.dtype or not np.array_equal(k0, k1):
                 return 'variable kind (no stacked dimension) differs from the first file: %r vs %r' % (k1.tolist(), k0.tolist())
